@@ -535,22 +535,8 @@ func (s *session) validate() error {
 	}
 	c.AddTraces(len(cases))
 	c.Set("recorded_tuples_judged", len(cases))
-	for _, bc := range bad {
-		tc := cases[bc.Index]
-		laws, pairs := failures(bc.Info)
-		for _, p := range pairs {
-			i, j := p.i, p.j
-			s.addPairReject(tc, i, j, p.what)
-		}
-		if len(laws) > 0 {
-			lr := lawRejected{tc: tc, laws: laws}
-			for _, p := range pairs {
-				lr.pairs = append(lr.pairs, [2]int{p.i, p.j})
-			}
-			s.lawRej = append(s.lawRej, lr)
-		}
-	}
-	c.Logf("V: %d recorded tuples judged, %d with rejections", len(cases), len(bad))
+	nbad := s.collect(cases, bad)
+	c.Logf("V: %d recorded tuples judged, %d with rejections", len(cases), nbad)
 	return nil
 }
 
@@ -559,37 +545,62 @@ type pairFailure struct {
 	i, j int
 }
 
-// failures decodes the set {<<what, i, j>>} printed by JudgeTriples.
-func failures(info []any) (laws []string, pairs []pairFailure) {
-	if len(info) == 0 {
-		return
-	}
-	set, _ := info[0].(lib.TLASet)
-	for _, e := range set {
-		t, ok := e.([]any)
-		if !ok || len(t) != 3 {
+// groupBad groups the BAD lines (one per failure: what, i, j) of JudgeTriples by case.
+func groupBad(bad []lib.BadCase) (idx []int, laws map[int][]string, pairs map[int][]pairFailure) {
+	laws, pairs = map[int][]string{}, map[int][]pairFailure{}
+	seen := map[int]bool{}
+	for _, bc := range bad {
+		if !seen[bc.Index] {
+			seen[bc.Index] = true
+			idx = append(idx, bc.Index)
+		}
+		if len(bc.Info) != 3 {
 			continue
 		}
-		what, _ := t[0].(string)
-		i, _ := t[1].(int64)
-		j, _ := t[2].(int64)
+		what, _ := bc.Info[0].(string)
+		i, _ := bc.Info[1].(int64)
+		j, _ := bc.Info[2].(int64)
 		if strings.HasPrefix(what, "agree-") {
-			pairs = append(pairs, pairFailure{what, int(i) - 1, int(j) - 1})
+			pairs[bc.Index] = append(pairs[bc.Index], pairFailure{what, int(i) - 1, int(j) - 1})
 		} else {
-			laws = append(laws, what)
+			laws[bc.Index] = append(laws[bc.Index], what)
 		}
 	}
-	sort.Strings(laws)
-	sort.Slice(pairs, func(a, b int) bool {
-		if pairs[a].i != pairs[b].i {
-			return pairs[a].i < pairs[b].i
-		}
-		if pairs[a].j != pairs[b].j {
-			return pairs[a].j < pairs[b].j
-		}
-		return pairs[a].what < pairs[b].what
-	})
+	for k := range laws {
+		sort.Strings(laws[k])
+	}
+	for k := range pairs {
+		ps := pairs[k]
+		sort.Slice(ps, func(a, b int) bool {
+			if ps[a].i != ps[b].i {
+				return ps[a].i < ps[b].i
+			}
+			if ps[a].j != ps[b].j {
+				return ps[a].j < ps[b].j
+			}
+			return ps[a].what < ps[b].what
+		})
+	}
 	return
+}
+
+// collect turns the judge's BAD lines into pending rejections.
+func (s *session) collect(cases []tcase, bad []lib.BadCase) int {
+	idx, laws, pairs := groupBad(bad)
+	for _, k := range idx {
+		tc := cases[k]
+		for _, p := range pairs[k] {
+			s.addPairReject(tc, p.i, p.j, p.what)
+		}
+		if len(laws[k]) > 0 {
+			lr := lawRejected{tc: tc, laws: laws[k]}
+			for _, p := range pairs[k] {
+				lr.pairs = append(lr.pairs, [2]int{p.i, p.j})
+			}
+			s.lawRej = append(s.lawRej, lr)
+		}
+	}
+	return len(idx)
 }
 
 func (s *session) addPairReject(tc tcase, i, j int, what string) {
@@ -713,19 +724,6 @@ func (s *session) replay() error {
 	if err != nil {
 		return err
 	}
-	for _, bc := range bad {
-		tc := cases[bc.Index]
-		laws, pairs := failures(bc.Info)
-		for _, p := range pairs {
-			s.addPairReject(tc, p.i, p.j, p.what)
-		}
-		if len(laws) > 0 {
-			lr := lawRejected{tc: tc, laws: laws}
-			for _, p := range pairs {
-				lr.pairs = append(lr.pairs, [2]int{p.i, p.j})
-			}
-			s.lawRej = append(s.lawRej, lr)
-		}
-	}
+	s.collect(cases, bad)
 	return s.classify()
 }
